@@ -279,9 +279,18 @@ def _apply_env(env):
     if "EXTENSION_SUFFIXES" in d:
         T.EXTENSION_SUFFIXES = d["EXTENSION_SUFFIXES"]
 
+    from packaging import _manylinux as ML                      # x2: glibc probes
+    saved_ml = {}
+    for key in ("_glibc_version_string_confstr", "_glibc_version_string_ctypes"):
+        if key in d:
+            saved_ml[key] = getattr(ML, key)
+            setattr(ML, key, (lambda v: (lambda: v))(d[key][0][1]))
+
     def undo():
         for k, v in saved.items():
             setattr(T, k, v)
+        for k, v in saved_ml.items():
+            setattr(ML, k, v)
     return undo
 
 
@@ -624,6 +633,34 @@ def _g_generic_tags(rng):
     return [_g_env(rng), rng.choice([None, None, "", "cp313", "PP39", "ip2"]), _g_abis(rng), _g_plats(rng), rng.random() < 0.3]
 
 
+GLIBC_TEXTS = ["2.17", "2.5", "2.31-0ubuntu9", "2", "2.", ".5", "x2.4", "12.345", "2.17\n", "", " 2.17", "2.17.1", "02.017", "2_17"]
+
+
+def _g_parse_glibc(rng):
+    return [rng.choice(GLIBC_TEXTS)]
+
+
+def _g_glibc_string(rng):
+    val = lambda: rng.choice([None, None, "", "2.17", "2.31"])
+    return [Env([("_glibc_version_string_confstr", [((), val())]), ("_glibc_version_string_ctypes", [((), val())])])]
+
+
+def _g_mac_arch(rng):
+    return [rng.choice(["x86_64", "arm64", "ppc64", "ppc", "i386", "Power", "", "PPC"]), rng.random() < 0.5]
+
+
+def _g_mac_formats(rng):
+    ver = rng.choice([(10, 3), (10, 4), (10, 5), (10, 6), (10, 7), (10, 15), (11, 0), (12, 3), (9, 9), (10,), (10, 4, 1), ()])
+    return [ver, rng.choice(["x86_64", "i386", "ppc64", "ppc", "arm64", "intel", "universal2", "", "X86_64"])]
+
+
+FUNCS.update({
+    "_mac_arch": ("packaging.tags", "_mac_arch", _g_mac_arch),
+    "_mac_binary_formats": ("packaging.tags", "_mac_binary_formats", _g_mac_formats),
+    "_parse_glibc_version": ("packaging._manylinux", "_parse_glibc_version", _g_parse_glibc),
+    "_glibc_version_string": ("packaging._manylinux", "_glibc_version_string", _g_glibc_string),
+})
+ENV_FUNCS |= {"_glibc_version_string"}
 ENV_FUNCS |= {"interpreter_name", "interpreter_version", "_generic_abi", "generic_tags", "sys_tags"}
 
 FUNCS.update({
@@ -671,8 +708,11 @@ class _Src:
             params = list(inspect.signature(f).parameters.values())
             pos = [v for p_, v in zip(params, vals) if p_.kind != p_.KEYWORD_ONLY]
             kw = {p_.name: v for p_, v in zip(params, vals) if p_.kind == p_.KEYWORD_ONLY}
-            r = f(*pos, **kw)
-            return "ok " + enc_val(r)          # a generator's body runs here, inside the try
+            import warnings
+            with warnings.catch_warnings():
+                warnings.simplefilter("ignore")                  # x2: warnings.warn(...) of the library is not an answer
+                r = f(*pos, **kw)
+                return "ok " + enc_val(r)          # a generator's body runs here, inside the try
         except RecursionError:
             return core.RESOURCE_LIMIT
         except Exception as e:
